@@ -202,7 +202,7 @@ fn plan(property: &str, tier: &str) -> Plan {
                 (Profile::Chaos, 10),
             ],
             shapes: SHAPES_GUIDED,
-            fault: FaultMode::Enumerate(&["truncate", "unfused"]),
+            fault: FaultMode::Enumerate(&["truncate", "unfused", "alien_then_truncate", "alien_then_unfused"]),
             legs: both,
             max_lexemes: if thorough { 8 } else { 6 },
             alpha_per_pos: 0,
@@ -227,7 +227,7 @@ fn plan(property: &str, tier: &str) -> Plan {
         "C07" => Plan {
             profiles: &[(Profile::Accumulate, 45), (Profile::Fallible, 45), (Profile::Plain, 10)],
             shapes: SHAPES_GUIDED,
-            fault: FaultMode::Enumerate(&["corrupt_alien", "corrupt_alpha", "truncate", "action_err"]),
+            fault: FaultMode::Enumerate(&["corrupt_alien", "corrupt_alpha", "truncate", "action_err", "action_err_then_alien"]),
             legs: both,
             max_lexemes: if thorough { 7 } else { 5 },
             alpha_per_pos: if thorough { ALPHABET.len() } else { 3 },
@@ -237,7 +237,7 @@ fn plan(property: &str, tier: &str) -> Plan {
         "C08" => Plan {
             profiles: &[(Profile::Tour, 70), (Profile::Chaos, 15), (Profile::Accumulate, 15)],
             shapes: SHAPES_GUIDED,
-            fault: FaultMode::Enumerate(&["corrupt_alien", "corrupt_alpha", "insert", "double_alien"]),
+            fault: FaultMode::Enumerate(&["corrupt_alien", "corrupt_alpha", "insert", "double_alien", "alien_pair"]),
             legs: both,
             max_lexemes: if thorough { 8 } else { 6 },
             alpha_per_pos: if thorough { 4 } else { 2 },
@@ -755,6 +755,7 @@ fn units_for_base(args: &WorkerArgs, pc: &mut ProgCtx, pl: &Plan, b: u64) -> Vec
     };
     let mut specs: Vec<RunSpec> = vec![base.clone()];
     let n = text.len();
+    let thorough_tier = args.tier == "thorough";
     if !long {
         let tr = ref_trace(&pc.prog, &mut pc.refprog, &text, &base);
         let place = placements(&pc.prog, &tr, n);
@@ -782,6 +783,50 @@ fn units_for_base(args: &WorkerArgs, pc: &mut ProgCtx, pl: &Plan, b: u64) -> Vec
                                     s.text[at + 1] = ALIEN;
                                     s.faults.push(Fault::CorruptAlien { at: at + 1 });
                                 }
+                            }
+                        }
+                        // sometimes further, independent faults later in the same run (failure,
+                        // recovery, then another failure / an action error / the end of input):
+                        // substitutions keep positions stable, so faults compose by position
+                        let mut extra = 0;
+                        while extra < 2 && r_fault.chance(1, 4) {
+                            extra += 1;
+                            let first_at = match s.faults[0] {
+                                Fault::CorruptAlien { at } | Fault::CorruptAlpha { at, .. } => Some(at),
+                                Fault::ActionErr { .. } => Some(0),
+                                _ => None,
+                            };
+                            let Some(first_at) = first_at else { break };
+                            if s.unfused_at.is_some() || s.text.len() != text.len() {
+                                break;
+                            }
+                            let Some(g) = sample_fault(&mut r_fault, &text, &place, true) else { break };
+                            let taken = |q: usize, s: &RunSpec| {
+                                s.faults.iter().any(|f| matches!(f, Fault::CorruptAlien { at } | Fault::CorruptAlpha { at, .. } if *at == q))
+                            };
+                            match g {
+                                Fault::CorruptAlien { at } if at < s.text.len() && !taken(at, &s) => {
+                                    s.text[at] = ALIEN;
+                                    s.faults.push(g);
+                                }
+                                Fault::CorruptAlpha { at, c } if at < s.text.len() && !taken(at, &s) => {
+                                    s.text[at] = c;
+                                    s.faults.push(g);
+                                }
+                                Fault::ActionErr { n } if !s.overrides.contains_key(&n) => {
+                                    let (k, d) = err_override(n);
+                                    s.overrides.insert(k, d);
+                                    s.faults.push(g);
+                                }
+                                Fault::Truncate { at } if at > first_at && at < s.text.len() => {
+                                    s.text.truncate(at);
+                                    s.faults.push(g);
+                                }
+                                Fault::Unfused { at } if at > first_at && at < s.text.len() => {
+                                    s.unfused_at = Some(at);
+                                    s.faults.push(g);
+                                }
+                                _ => {}
                             }
                         }
                         specs.push(s);
@@ -812,6 +857,68 @@ fn units_for_base(args: &WorkerArgs, pc: &mut ProgCtx, pl: &Plan, b: u64) -> Vec
                                 s.text[p + 1] = ALIEN;
                                 s.faults.push(Fault::CorruptAlien { at: p + 1 });
                                 specs.push(s);
+                            }
+                        }
+                        // an unlexable character at p and the end of input at every (thorough) or
+                        // two sampled (quick) later positions q: failure, recovery, then EOF
+                        "alien_then_truncate" | "alien_then_unfused" => {
+                            for p in 0..n {
+                                let mut qs: Vec<usize> = ((p + 1)..n).collect();
+                                if !thorough_tier {
+                                    while qs.len() > 2 {
+                                        let i = r_fault.usize_below(qs.len());
+                                        qs.remove(i);
+                                    }
+                                }
+                                for q in qs {
+                                    let mut s = with_fault(Fault::CorruptAlien { at: p });
+                                    if *kind == "alien_then_truncate" {
+                                        s.text.truncate(q);
+                                        s.faults.push(Fault::Truncate { at: q });
+                                    } else {
+                                        s.unfused_at = Some(q);
+                                        s.faults.push(Fault::Unfused { at: q });
+                                    }
+                                    specs.push(s);
+                                }
+                            }
+                        }
+                        // two unlexable characters at independent positions p < q: failure,
+                        // recovery in Init, tokens, a second failure (possibly in another rule set)
+                        "alien_pair" => {
+                            for p in 0..n {
+                                let mut qs: Vec<usize> = ((p + 2)..n).collect();
+                                if !thorough_tier {
+                                    while qs.len() > 2 {
+                                        let i = r_fault.usize_below(qs.len());
+                                        qs.remove(i);
+                                    }
+                                }
+                                for q in qs {
+                                    let mut s = with_fault(Fault::CorruptAlien { at: p });
+                                    s.text[q] = ALIEN;
+                                    s.faults.push(Fault::CorruptAlien { at: q });
+                                    specs.push(s);
+                                }
+                            }
+                        }
+                        // a forced action error at invocation k and an unlexable character at
+                        // every position: Custom error and InvalidToken in one history
+                        "action_err_then_alien" => {
+                            for k in &place.fallible_invocations {
+                                let mut ps: Vec<usize> = (0..n).collect();
+                                if !thorough_tier {
+                                    while ps.len() > 3 {
+                                        let i = r_fault.usize_below(ps.len());
+                                        ps.remove(i);
+                                    }
+                                }
+                                for p in ps {
+                                    let mut s = with_fault(Fault::ActionErr { n: *k });
+                                    s.text[p] = ALIEN;
+                                    s.faults.push(Fault::CorruptAlien { at: p });
+                                    specs.push(s);
+                                }
                             }
                         }
                         "corrupt_alpha" => {
